@@ -51,7 +51,7 @@ type schedX struct {
 	scn         string
 	outsOf      map[string][]world.Out
 	initPending map[int]bool // proofs locked by a melt when the controlled phase begins
-	sigs        []sigRec // signatures handed out by the concurrent requests, with the output they answer
+	sigs        []sigRec     // signatures handed out by the concurrent requests, with the output they answer
 	kindsAll    []string
 	freeRun     bool
 	mu          sync.Mutex
